@@ -190,6 +190,9 @@ def handle (op : String) (args : List String) (impl : Impl) : Option Ans :=
     pure { model := "ok " ++ bool01 m, spec := judgeInt impl (if want then 1 else 0),
            branch := op ++ ":" ++ (if va == vb then "same" else if va == -vb then "opposite"
               else if a.c == b.c then "same_c" else if (a.c - b.c).natAbs == 1 then "adjacent_c" else "far") }
+  | "isneg", [a] => do
+    let a ← parseDur? a
+    pure { model := "ok " ++ bool01 (decide (a.c < 0)), spec := judgeInt impl (if sval a < 0 then 1 else 0), branch := "isneg:" ++ (if sval a < 0 then "neg" else if sval a == 0 then "zero" else "pos") }
   | "lt", [a, b] | "le", [a, b] | "gt", [a, b] | "ge", [a, b] => do
     let a ← parseDur? a; let b ← parseDur? b
     let va := sval a; let vb := sval b
